@@ -81,7 +81,12 @@ static void run_ops(int t, int phase, const ThreadProg& pr, const SharedSol& sol
   for (const OpSpec& op : pr.phase[phase]) {
     switch (op.kind) {
       case 0: { SU_vector c = squids::iCommutator(a, b) + squids::ACommutator(a, b) * 0.5; for (int k = 0; k < d * d; k++) out.push_back(c[k]); a += c * 0.01; break; }
-      case 1: { int i = op.p1 % (d - 1), j = i + 1 + op.p2 % (d - 1 - i); SU_vector r = a.Rotate(i, j, op.x, 0.3); squids::Const p; p.SetMixingAngle(0, 1, op.x); p.SetPhase(0, 1, 0.2); r.RotateToB1(p); for (int k = 0; k < d * d; k++) out.push_back(r[k]); break; }
+      case 1: { int i = op.p1 % (d - 1), j = i + 1 + op.p2 % (d - 1 - i); SU_vector r = a.Rotate(i, j, op.x, 0.3); squids::Const p; p.SetMixingAngle(0, 1, op.x); p.SetPhase(0, 1, 0.2); r.RotateToB1(p); for (int k = 0; k < d * d; k++) out.push_back(r[k]);
+        // the matrix-taking entry points, each thread with a matrix of its own
+        auto U = p.GetTransformationMatrix(d);
+        SU_vector r1 = r.UTransform(U.get()), r2 = r.UDaggerTransform(U.get()), r3 = r.Rotate(U.get());
+        for (int k = 0; k < d * d; k++) { out.push_back(r1[k]); out.push_back(r2[k]); out.push_back(r3[k]); }
+        break; }
       case 2: { SU_vector r = a.UTransform(b, gsl_complex_rect(0, 0.1 + fabs(op.x))); for (int k = 0; k < d * d; k++) out.push_back(r[k]); break; }
       case 3: { auto es = a.GetEigenSystem(true); for (int k = 0; k < d; k++) out.push_back(gsl_vector_get(es.first.get(), k)); break; }
       case 4: { SU_vector h(d); for (int k = 1; k < d; k++) h[d * k + k] = 0.2 * k + op.x; std::vector<double> buf(h.GetEvolveBufferSize()); h.PrepareEvolve(buf.data(), 1.0 + op.x); SU_vector r(a.Evolve(buf.data())); b = r; for (int k = 0; k < d * d; k++) out.push_back(r[k]); break; }
